@@ -151,18 +151,20 @@ class ComponentLevel2( ComponentLevel1 ):
         # slice: [x:y] where x and y are either normal integers or
         #        closure/global variable.
         else:
+          def static_value( x ):
+            # ( is_closure, name ) or ( "expr", code of a constant expression )
+            if x[0] == "expr": return eval( x[1], _globals, _closure )
+            return _closure[ x[1] ] if x[0] else _globals[ x[1] ]
+
           if isinstance( current_idx, tuple ):
-            is_closure, name = current_idx
-            current_idx = _closure[ name ] if is_closure else _globals[ name ]
+            current_idx = static_value( current_idx )
           elif isinstance( current_idx, slice ):
             start = current_idx.start
             if isinstance( start, tuple ):
-              is_closure, name = start
-              start = _closure[ name ] if is_closure else _globals[ name ]
+              start = static_value( start )
             stop  = current_idx.stop
             if isinstance( stop, tuple ):
-              is_closure, name = stop
-              stop = _closure[ name ] if is_closure else _globals[ name ]
+              stop = static_value( stop )
             current_idx = slice(start, stop)
 
           try:
